@@ -48,3 +48,9 @@ package main
 //@   also-modifies lastGot
 //@ func (*Cron).Add$1
 //@   ensures[C16.crolt_add_sees_any_stored_record] result == nil && len(lastGot) > 0 ==> exists
+
+// C16: the time index is ordered by the byte order of UTC timestamps (work() compares its keys with a UTC "now"), so the next
+// occurrence of a cron expression is computed from the UTC clock reading.
+//@ func (*Cron).set
+//@   mark[utcNow] at "call:UTC": true
+//@   assert[C16.crolt_cron_expression_next_from_utc_now] at "call:Next": marked(utcNow)
